@@ -122,8 +122,9 @@ Lemma secp_mirror_rejected msg pk sig1 sig2 :
   secp_verify ecdsa msg pk sig2 = false.
 Proof.
   intros H1 Hs. apply secp_verify_inv in H1. destruct H1 as (Hn & Hr).
-  pose proof (lowS_unique _ Hr) as Hx. rewrite Hn in Hx. cbn in Hx.
-  unfold secp_verify. rewrite Hs. destruct (normalized_s (p256_n - secp_s sig1)); [discriminate | reflexivity].
+  pose proof (lowS_unique _ Hr) as Hx. rewrite Hn in Hx.
+  unfold secp_verify. rewrite Hs. destruct (normalized_s (p256_n - secp_s sig1)); [|reflexivity].
+  change (false = true) in Hx. discriminate Hx.
 Qed.
 
 Lemma secp_encoding_unique msg pk sig1 sig2 :
@@ -187,7 +188,7 @@ Proof.
   assert (Hrest : length rest = (pk_len id + sig_len id)%nat) by lia.
   assert (Hsk : firstn (sig_len id) (skipn (pk_len id) rest) = skipn (pk_len id) rest).
   { apply firstn_all2. rewrite skipn_length. lia. }
-  rewrite Hsk, firstn_skipn. repeat split.
+  rewrite Hsk. unfold auth_bytes. cbn [a_id a_pk a_sig]. rewrite firstn_skipn. repeat split.
   - rewrite firstn_length. lia.
   - rewrite skipn_length. lia.
 Qed.
@@ -225,8 +226,9 @@ Proof.
   unfold parse_auth. destruct b as [|t rest]; [discriminate|].
   destruct ((t =? ED25519_ID) || (t =? SECP256R1_ID) || (t =? BLS_ID)) eqn:Et; [|discriminate].
   intros Hu. apply unmarshal_scheme_some in Hu. destruct Hu as (Hb & Hid & Hp & Hs & Hbls).
-  split; [exact Hb|]. unfold wf_auth. rewrite Hid. repeat split; auto.
-  unfold valid_id. rewrite !orb_true_iff, !N.eqb_eq in Et. tauto.
+  split; [exact Hb|]. unfold wf_auth. rewrite Hid.
+  split; [unfold valid_id; rewrite !orb_true_iff, !N.eqb_eq in Et; tauto|].
+  split; [exact Hp|]. split; [exact Hs | exact Hbls].
 Qed.
 
 (* Unmarshal(Bytes(a)) = a *)
